@@ -365,14 +365,16 @@ def wrapErr : List Bytes → Err → Err
   | [], e => e
   | n :: r, e => .bind n (wrapErr r e)
 
-/-- every error the statement allows for this input -/
+/-- every error the statement allows for this input (for a leaf whose keys are ambiguous in this
+    source, any error naming the leaf) -/
 def causes (P : Params) (cfg : Cfg) (tag : Tag) (fs : List Fld) (init : Val) (s : Src) : List Err :=
-  ((leavesOf tag fs).flatMap fun l => (expect P cfg s init l).errs.map (wrapErr l.names)) ++
+  ((leavesOf tag fs).flatMap fun l =>
+      ((expect P cfg s init l).errs ++ (if ambiguous s l then [Err.conv, Err.sliceLen, Err.mapSize] else [])).map (wrapErr l.names)) ++
   ((nodesOf tag fs).filter (fun n => cfg.maxDepth < n.depth)).map (fun n => wrapErr n.names .depth)
 
 /-- the only admissible outcome is an error -/
 def mustFail (P : Params) (cfg : Cfg) (tag : Tag) (fs : List Fld) (init : Val) (s : Src) : Bool :=
-  (leavesOf tag fs).any (fun l => (expect P cfg s init l).oks.isEmpty) ||
+  (leavesOf tag fs).any (fun l => !ambiguous s l && (expect P cfg s init l).oks.isEmpty) ||
   (nodesOf tag fs).any (fun n => cfg.maxDepth < n.depth)
 
 inductive Obs
